@@ -698,7 +698,13 @@ func genC28(g *Gen, idx int) *Plan {
 	cp.Ops = ops
 	// gateway behaviour
 	classOf := map[string]string{"register": "REGISTER", "subscribe": "SUBSCRIBE", "unsubscribe": "UNSUBSCRIBE", "publish1": "PUBLISH", "publish2": "PUBLISH", "ping": "PINGREQ", "sleep": "DISCONNECT", "disconnect": "DISCONNECT", "close": "DISCONNECT", "publish0": "PUBLISH"}
-	switch g.Intn(10) {
+	switch g.Intn(11) {
+	case 10: // the client's own write fails (ECONNREFUSED after an ICMP error): for the call under test, or for every packet from some point
+		if g.Bool(0.5) {
+			p.Cfg.SN.Rules = append(p.Cfg.SN.Rules, Rule{Dir: "c2g", Class: classOf[call], Skip: g.Intn(2), Count: int(g.Range(1, 3)), Act: "werr"})
+		} else {
+			p.Cfg.SN.Rules = append(p.Cfg.SN.Rules, Rule{Dir: "c2g", Skip: int(g.Range(1, 6)), Count: 1000, Act: "werr"})
+		}
 	case 9: // a REGISTER from the gateway that the client must refuse (a name it knows, under another id), then more work
 		reg := []ClientOp{{Op: "dial"}, {Op: "connect"}, {GapMs: g.Range(20, 300), Op: "register", Topic: namePool[0]}, {GapMs: g.Range(20, 300), Op: "register", Topic: namePool[1]}}
 		rest := []ClientOp{mk(call)}
@@ -1021,7 +1027,7 @@ func init() {
 		Rule:   "filters and topic names over {a,b,'',+,#} up to 3 levels (empty levels, trailing '/', '#' at parent level), subscribe/unsubscribe histories of 2-8 calls, the scripted gateway delivers PUBLISHes (QoS 0/1 on receipt, QoS 2 on PUBREL) between the calls; judged with refmqtt.Match; deliveries that race an in-flight Subscribe/Unsubscribe are don't-care; non-trivial = at least one delivery judged",
 		Gen:    genC27, Oracle: oracleC27, Quick: 800, Thorough: 60000})
 	Register(&Check{ID: "C28", Level: "fault_enumeration",
-		Rule:   "for each of 10 API calls (register, subscribe, unsubscribe, publish QoS 0/1/2, ping, sleep, disconnect, close) x 9 gateway behaviours (answering, silent for the call's packet class, silent for a later step, silent forever from an instant, unsolicited packets of random types, DISCONNECT from the gateway, the previous acknowledgement repeated for every retransmittable step / every acknowledgement twice / CONNACK again and again, DISCONNECT repeated for minutes incl. while the client sleeps, an API call in a wrong state (Sleep before Connect) followed by a DISCONNECT from the gateway), KeepAlive on/off; bound per call from ConnectTimeout/RetryDelay/RetryCount/sleep duration + 50 ms; goroutine census of client frames after Close/DISCONNECT; non-trivial = every run",
+		Rule:   "for each of 10 API calls (register, subscribe, unsubscribe, publish QoS 0/1/2, ping, sleep, disconnect, close) x 11 behaviours of the gateway and the network (answering, silent for the call's packet class, silent for a later step, silent forever from an instant, unsolicited packets of random types, DISCONNECT from the gateway, the previous acknowledgement repeated for every retransmittable step / every acknowledgement twice / CONNACK again and again, DISCONNECT repeated for minutes incl. while the client sleeps, an API call in a wrong state (Sleep before Connect) followed by a DISCONNECT from the gateway, a REGISTER the client must refuse followed by more work, the client's own writes failing with an error), KeepAlive on/off; bound per call from ConnectTimeout/RetryDelay/RetryCount/sleep duration + 50 ms; goroutine census of client frames after Close/DISCONNECT; non-trivial = every run",
 		Gen:    genC28, Oracle: oracleC28, Quick: 800, Thorough: 40000})
 	Register(&Check{ID: "C33", Level: "exploration",
 		Rule:   "KeepAlive 2-6 s, RetryDelay < KeepAlive; Sleep/Publish/Ping/Register/Subscribe/Disconnect placed at k*KeepAlive +- {0,1,2,20,300} ms, Sleep also one RetryDelay (less a round trip) after a tick whose ping stays unanswered, yield focus on keepaliveLoop/Ping/sleep transaction, optionally the first PINGRESPs lost or every PINGRESP late by 30 ms..0.8 RetryDelay (it arrives after the answer to the call made right after the tick); the client's own state changes are recorded from its log; keep-alive PINGREQs (those without client id) must not be sent after the client has logged asleep/disconnected, gaps while active <= KeepAlive + RetryDelay + 20 ms, no API call may fail or hang against an answering gateway, a Sleep(d) that returns nil lasted d and sent the wake-up PINGREQ; non-trivial = a keep-alive PINGREQ was sent",
